@@ -18,6 +18,7 @@ package zipslicer
 
 import (
 	"bytes"
+	"errors"
 	"time"
 
 	"github.com/sassoftware/relic/v8/lib/binpatch"
@@ -43,23 +44,38 @@ func (d *Directory) Mangle(callback MangleFunc) (*Mangler, error) {
 		indir:  d.DirLoc,
 		insize: d.Size,
 	}
+	// Members keep their bytes, so each one ends up where it was less whatever
+	// was cut out in front of it. That only works if the directory lists the
+	// members in the order they appear in the file.
+	var removed, lastEnd int64
 	for _, f := range d.File {
 		mf := &MangleFile{File: *f, m: m}
 		if err := callback(mf); err != nil {
 			return nil, err
 		}
+		size, err := mf.GetTotalSize()
+		if err != nil {
+			return nil, err
+		}
+		if int64(mf.Offset) < lastEnd {
+			return nil, errors.New("zip members are not stored in directory order")
+		}
+		lastEnd = int64(mf.Offset) + size
 		if mf.deleted {
-			size, err := mf.GetTotalSize()
-			if err != nil {
-				return nil, err
-			}
 			m.patch.Add(int64(mf.Offset), size, nil)
+			removed += size
 		} else {
+			m.outz.DirLoc = int64(mf.Offset) - removed
 			if _, err := m.outz.AddFile(&mf.File); err != nil {
 				return nil, err
 			}
 		}
 	}
+	if lastEnd > d.DirLoc {
+		return nil, errors.New("zip members overlap the central directory")
+	}
+	// new files go where the old directory started
+	m.outz.DirLoc = d.DirLoc - removed
 	return m, nil
 }
 
